@@ -502,8 +502,16 @@ def rule_m4(ck, prog, S):
             defs.append((n, n.child(1)))
     hdr, mx = f.params[1]["name"], f.params[2]["name"]
 
-    def is_extent(e):
+    def is_extent(e, depth=0):
         e = e.strip_all_casts()
+        if e.k == "DeclRefExpr" and e.get("decl", {}).get("kind") == "local" and depth < 2:
+            # the length goes through a local: every definition of that local is the bounded length
+            nm = e.get("path")
+            ds = [f.nodes[d["init"]] for n_ in f.nodes.values() if n_.k == "DeclStmt" for d in n_.get("decls", [])
+                  if d["name"] == nm and "init" in d]
+            ds += [n_.child(1) for n_, t_ in C.stores(f) if t_.get("path") == nm and n_.get("op") == "="]
+            others = [n_ for n_, t_ in C.stores(f) if t_.get("path") == nm and n_.get("op") != "="]
+            return bool(ds) and not others and all(is_extent(x, depth + 1) for x in ds)
         if e.k != "CallExpr" or e.get("callee") not in ("strnlen", "BSD_strnlen"):
             return False
         a = C.call_args(e)
